@@ -75,7 +75,7 @@ fn line_with<'a>(text: &'a str, prefix: &str) -> Option<&'a str> {
 
 /// Strict well-formedness of the generated XML subset: balanced element names, no attributes expected,
 /// every `&` starts one of the five predefined entities, no raw `<` in text.
-fn xml_well_formed(x: &str) -> std::result::Result<(), String> {
+pub fn xml_well_formed(x: &str) -> std::result::Result<(), String> {
     let b: Vec<char> = x.chars().collect();
     if let Some(c) = b.iter().find(|c| !xml_char(**c)) {
         return Err(format!("character U+{:04X} is not allowed in XML 1.0", *c as u32));
